@@ -261,9 +261,9 @@ Proof.
   destruct (String.eqb m captain_id).
   - destruct (wedged S c).
     + intros [= <- <- <-]. exact I.
-    + destruct (as_crew_op S decode_src msg) as [| |op]; try discriminate.
+    + destruct (as_crew_op S decode_src msg) as [| |op0]; try discriminate.
       * intros [= <- <- <-]. eapply inv_same; [..|exact I]; reflexivity.
-      * destruct (op_ordinary S op); try discriminate.
+      * set (op := strip_op S op0) in *; destruct (op_ordinary S op); try discriminate.
         intros [= <- <- <-]. apply do_op_inv. exact I.
   - destruct (String.eqb m timers_id).
     + intros [= <- <- <-]. destruct (tm_shape msg); exact I.
